@@ -25,16 +25,19 @@ CHECKS = {
         text="Abstract grid spec (Grid.tla) model-checked exhaustively by TLC for the locality/shift/size laws (GridMC.tla); every transition "
         "of a bounded instance is dumped by TLC and replayed on a real Table built in three run-length encodings, random walks through the dumped "
         "graph run on one live object, and seeded random histories of the real code are validated event by event by TLC (GridTrace.tla). "
-        "Verdicts: independent XML expansion and every live read vs the state/answers TLC computes.",
-        ref="DESIGN.md section 4 C01, Appendix A",
+        "Verdicts: independent XML expansion and every live read vs the state/answers TLC computes. Also: Vault.tla (implementation-shaped run-length "
+        "vault refining Grid.tla) model-checked and bound both ways (walks on live Row/Table vaults; VaultTrace.tla validation of every real vault call of "
+        "random histories and of the repository's own table tests run under an external tracing plugin), tables with header groups and outlines.",
+        ref="DESIGN.md section 4 C01, section 10, Appendix A",
         technique="TLA+ abstract spec + TLC exhaustive model check; TLC transition dump replayed into the code (MBT); TLC trace validation of recorded histories",
         note=TABLE_NOTE,
     ),
     "C02": dict(
         text="Same Grid.tla specification; verdict is the three-way agreement live object = fresh parse of its XML = independent expansion = "
         "model after EVERY step of walks through the TLC-dumped graph and of recorded histories with cache-filling reads interleaved before each "
-        "mutation, plus document save/reload at random steps, all validated by TLC (GridTrace.tla).",
-        ref="DESIGN.md section 4 C02",
+        "mutation, plus document save/reload at random steps, all validated by TLC (GridTrace.tla); Vault.tla: reads through the position map and "
+        "the item cache are true in every reachable state (refuted by TLC when the cache reset is dropped), walks on live vaults with cache-filling reads.",
+        ref="DESIGN.md section 4 C02, section 10",
         technique="TLC transition-graph walks on one live object + TLC trace validation, three-way read comparison",
         note=TABLE_NOTE,
     ),
@@ -42,7 +45,8 @@ CHECKS = {
         text="Structural rules (repeat attributes absent or >= 2, rows hold only cells, columns before rows, no row wider than the declared "
         "columns, first row declares columns, size = sums of repeats) are invariants/action properties of GridMC.tla and are evaluated on the raw "
         "XML after every replayed transition, walk step and trace event; name rules are specified in Names.tla (documented rule vs transcription "
-        "of the code's check agree on all strings), every enumerated string is replayed into the three name setters.",
+        "of the code's check agree on all strings), every enumerated string is replayed into the three name setters. Histories in which nothing is "
+        "read back except single cache-filling reads keep the rules evaluated on the XML alone.",
         ref="DESIGN.md section 4 C07",
         technique="TLC invariants on dumped/recorded states + exhaustive string enumeration by TLC replayed into the code",
         note=TABLE_NOTE + " The rule 'office applications accept' is taken to be the rule the library documents.",
@@ -104,9 +108,11 @@ CHECKS = {
         text="PackageMC.tla SaveNeutral (Save changes no answer of the live document); PackageTrace.tla clauses C11: pretty/folder saves write "
         "the same loose form (structure, attributes, ODF-collapsed readable text of every paragraph/heading) as the belief, plain saves the "
         "same strict form, and the document's own view re-read after every save equals the belief; sources include generated documents with "
-        "every inline kind next to every other.",
+        "every inline kind next to every other. Pretty.tla: the indentation function transcribed on labelled trees, TLC proves that what a consumer reads "
+        "is kept for every document of a bounded family (and refutes the library's earlier rule); each document is replayed through "
+        "XmlPart.serialize(pretty=True) and read back independently.",
         ref="DESIGN.md section 4 C11",
-        technique="TLC model check (SaveNeutral) + TLC trace validation with strict/loose content identifiers",
+        technique="TLC model check (SaveNeutral, Pretty.tla ReadableKept) + TLC-enumerated documents replayed into the code + TLC trace validation with strict/loose content identifiers",
         note=PKG_NOTE + " loose form = harness/odftext.py (ODF 1.2 part 1 section 6.1.2).",
     ),
     "C15": dict(
